@@ -139,6 +139,7 @@ theorem not_running_frozen (ops : PriceOps P) (m : Market P) (hnr : m.running = 
         · rw [hnr] at h0; cases h0
   | tick f => simp [Market.step, Market.tick, hnr, marketRule]
   | setRunning b => rfl
+  | setFund f => rfl
 
 /-- … and an explicit clock jump (`_set_time`) carries the most recent recorded market price -/
 theorem jump_frozen (ops : PriceOps P) (m : Market P) (hnr : m.running = false) (k : Nat) (f : Option P)
